@@ -391,6 +391,29 @@ pub fn c04(out: &mut Out, rng: &mut Rng, tier: &Tier) {
     c04_pair::<Kmer16, Kmer10>(out, seed, tier, &mut c, nb, &mut st);
     c04_pair::<K31, Kmer10>(out, seed, tier, &mut c, nb, &mut st);
     c04_pair::<K31, Kmer12>(out, seed, tier, &mut c, nb, &mut st);
+    // one contig-sized read (66 500 bases, beyond every 16-bit quantity): the list-level model cannot evaluate this size,
+    // but both pipelines must RETURN on it (C04_sharded_total / C04_direct_total) and keep the same k-mers - a panic is a
+    // failing input (seeded change C04-m9: interval lengths computed in u16 arithmetic, debug-build underflow)
+    if tier.shard == 0 {
+        let mut r2 = Rng::new(seed ^ 0x5EED_C04B);
+        let long: Vec<u8> = (0..66_500).map(|_| r2.base()).collect();
+        let reads: Vec<LRead> = vec![(long, 1)];
+        for stranded in [false, true] {
+            let sh = run_sharded::<Kmer20, Kmer5>(&reads, stranded, None, 1, 0, 2);
+            let di = run_direct::<Kmer20>(&reads, stranded, 1, 0, 0);
+            let count = |g: &Nodes| -> usize { g.iter().map(|n| n.0.len() + 1 - 20).sum() };
+            let same = match (&sh, &di) {
+                (Some(a), Some(bd)) => Some(count(&a.fin) == count(&bd.1)),
+                _ => None,
+            };
+            out.nt = true;
+            match same {
+                Some(eq) => out.case("s.id", l(vec![b(true)]), b(eq)),
+                None => out.case("s.no_panic", l(vec![nu(20), nu(5), nu(66_500)]), V::Bot),
+            }
+        }
+        out.nt = false;
+    }
     let s: Vec<String> = st.shards.iter().map(|(p, c)| format!("{}:{}", p, c)).collect();
     out.comment(&format!(
         "stat cases={} with_cross_shard_merge={} shards_produced_histogram (shards:cases) {}",
